@@ -25,6 +25,13 @@ def programs(tier, seed):
     for i in range(60 if tier == "quick" else 1000):
         prog = gen.graph_program(random.Random("g/%s/%s" % (seed, i)))
         items.append(("graph/%d/%d" % (seed, i), gen.program_text(prog), False))
+    # dense positive cycles with evidence on a cycle atom, grounded with and without evidence propagation
+    for i in range(80 if tier == "quick" else 1500):
+        rng = random.Random("c09cyc/%s/%s" % (seed, i))
+        prog = [st_ for st_ in gen.cyclic_prop_program(rng) if st_[0] != "evidence"]
+        ders = sorted(set(st_[1] for st_ in prog if st_[0] == "rule"))
+        prog.append(("evidence", rng.choice(ders), rng.random() < 0.7))
+        items.append(("cyc-ev/%d/%d" % (seed, i), gen.program_text(prog), i % 4 != 0))
     return items
 
 
